@@ -432,6 +432,18 @@ class VariableWithCostDict(Variable):
         except KeyError:
             return 0.0
 
+    @classmethod
+    def _from_repr(cls, r):
+        v = super()._from_repr(r)
+        # json only supports strings as keys: when the repr has been sent on
+        # the wire, map the keys of the costs back to the values of the domain.
+        by_str = {str(d): d for d in v.domain.values}
+        v._costs = {
+            k if k in v.domain.values else by_str.get(k, k): c
+            for k, c in v._costs.items()
+        }
+        return v
+
     def __str__(self):
         return "VariableWithCostDict({})".format(self.name)
 
